@@ -2760,10 +2760,12 @@ def r1322(P, W, rep):
     cursors inside the window, and what it reports is not after the cursor it was given.  Then every nested diagnostic has a strictly smaller position and
     the innermost one is printed.  If any of the three is off by one byte, the nested diagnostic covers the offending byte again and the compiler recurses
     until the stack overflows."""
-    rep.rule('R13.22', 'printing a diagnostic terminates: where code that the diagnostic printer runs over the reported line (column computation) can itself issue a located diagnostic, '
+    rep.rule('R13.22', 'printing a diagnostic terminates: every function the diagnostic printer runs (call graph below verror_at) either calls no diagnostic function -- one obligation per '
+                       'function and one for the printer itself; if that holds for all of them the printer is never re-entered -- or, where code that the printer runs over the reported line '
+                       '(column computation) can itself issue a located diagnostic, '
                        '(a) the position it reports is never after the cursor it was called with, (b) the function that applies it does so only to cursors strictly inside the window '
                        '[start, start+len) it was given, and (c) the printer\'s window ends at the reported position (len = position - start of the line): every nested diagnostic then has a '
-                       'strictly smaller position; otherwise the nested printer examines the offending byte again and the compiler recurses until the stack overflows (SIGSEGV, no message)', floor=1)
+                       'strictly smaller position; otherwise the nested printer examines the offending byte again and the compiler recurses until the stack overflows (SIGSEGV, no message)', floor=2)
     from ..interp import Interp, Sym, Lin, Unsupported
     PR = 'verror_at'
     tu = W.units['tokenize.c']
@@ -2795,8 +2797,22 @@ def r1322(P, W, rep):
             if c.callee() in entries:
                 closing.setdefault(D, []).append(c)     # a function the printer runs issues a diagnostic: the printer is re-entered
     pwhere = 'tokenize.c:%d' % va.line
+    # ---- (0) what the printer runs issues no diagnostic at all: one holding obligation per function below the printer (and one for the printer itself).  The
+    #      progress obligations (a)-(c) exist only for the functions for which this is not so.
+    ambiguous = set()
+    for D in sorted((below | set([PR])) - entries):
+        ambiguous |= set(h for h in callees.get(D, ()) if len(W.fn_unit.get(h, ())) > 1)
+    for h in sorted(ambiguous):
+        rep.undecided('R13.22', 'tokenize.c:verror_at:%s-ambiguous' % h, 'the diagnostic printer can reach %s(), which is defined in more than one unit (%s): what it calls is not followed'
+                      % (h, ', '.join(sorted(W.fn_unit[h]))), where=pwhere)
+    if PR not in closing:
+        rep.ob('R13.22', 'tokenize.c:verror_at:calls-no-diagnostic-function', True, '', where=pwhere)
+    for D in sorted(below - entries - set([PR])):
+        if D not in closing:
+            rep.ob('R13.22', '%s:%s:issues-no-diagnostic' % (fdef[D][0], D), True, '', where='%s:%d' % (fdef[D][0], fdef[D][2].line))
     if not closing:
         rep.ob('R13.22', 'tokenize.c:verror_at:no-re-entry', True, '', where=pwhere)
+        rep.extra['diagnostic_printer_re_entry'] = {'functions_the_printer_runs': sorted(below - entries - set([PR])), 'diagnostic_functions': sorted(entries), 'calls_that_re_enter': {}}
         return
     vps = [c for c in va.inner if c.kind == 'ParmVarDecl']
     vids = [p.id for p in vps]
